@@ -51,7 +51,7 @@ def _run_form(job):
     kw.update(kwargs)
     res = conv.convert_case({"input": inp, "kwargs": kw, "events": True})
     cfg = rowtrace.wb_cfg(wb, form_name=kwargs.get("form_name"))
-    trace, frag = rowtrace.build(res, cfg, with_refs=bool(job.get("refs")))
+    trace, frag = rowtrace.build(res, cfg, with_refs=bool(job.get("refs")), src=job.get("src"))
     return {"shapes": shapes, "seed": seed, "feat": sorted(feat), "fmt": fmt, "wb": wb, "res": {k: v for k, v in res.items() if k != "events"},
             "trace": trace, "frag": frag, "info": info, "tag": job.get("tag")}
 
